@@ -62,6 +62,11 @@ def run_case(seed, tier, rec, st):
         mode = rng.choice(["config", "annotated", "union", "tagger", "nofield", "nested"])
         lazy = "        lazy_compilation = True\n" if rng.random() < 0.15 else ""
         mixin = "DataClassDictMixin" if (mode in ("config", "nested") or rng.random() < 0.6) else ""
+        # the hierarchy on the msgpack mixin, dispatched through from_msgpack: variants compiled on first use must get
+        # the format's dialect (their bytes member arrives as bin)
+        packed = mode == "config" and rng.random() < 0.3
+        if packed:
+            mixin = "DataClassMessagePackMixin"
         base = f"({mixin})" if mixin else ""
         inc_super = rng.random() < 0.5
         # other Annotated metadata in front of the Discriminator
@@ -77,6 +82,8 @@ def run_case(seed, tier, rec, st):
             if tag is not None and mode != "tagger":
                 body.append(f"    {tagfield} = {tag!r}")
             body.append(f"    f_{name}: int = 0")
+            if packed:
+                body.append(f"    b_{name}: bytes = b''")
             if extra:
                 body.append(extra)
             src = f"@dataclass\nclass {name}({parent}):\n" + "\n".join(body) + "\n"
@@ -109,6 +116,9 @@ def run_case(seed, tier, rec, st):
             order.append("R")
             roots = ["R"]
             wirings = {"config": lambda d: mod.R.from_dict(d)}
+            if packed:
+                import msgpack as _mp
+                wirings = {"config-msgpack": lambda d: mod.R.from_msgpack(_mp.packb(dict(d, **{f"b_{c}": b"\x00raw" for c in order if c != "R"}), use_bin_type=True))}
             eligible_root = False        # config-level: subtypes only
         elif mode in ("annotated", "tagger"):
             root_tag = tags.pop() if rng.random() < 0.5 else None
